@@ -336,7 +336,10 @@ def ErrorInRangeStatement : Prop := ∀ (s : Text) (e : SynErr), lexAll s = .err
 
 /-- `error_in_range_partial`: every error position is ≤ len(text), EXCEPT the `NonTerminatedString` raised when the
     text ends inside an escape sequence, which is at len(text) + 1. Missing for the full statement: exactly that case
-    (ledger L6; the value len+1 is pinned by tests/test_lang/test_lexer.py, so the code is modelled as it is). -/
+    (ledger L6; the value len+1 is pinned by tests/test_lang/test_lexer.py, so the code is modelled as it is).
+    WHICH texts are excluded is pinned down in `Props/C01_errors_exact.lean`: only texts whose last characters are `\` or
+    `\u` + at most three hex digits (`EndsInEscape`); for all others the full statement is proved
+    (`error_in_range_except_truncated_escape`). -/
 theorem error_in_range_partial (s : Text) (e : SynErr) (h : lexAll s = .error e) :
     e.pos ≤ s.length ∨ (e.pos = s.length + 1 ∧ e.kind = .nonTerminatedString) := by
   unfold lexAll at h
